@@ -759,6 +759,9 @@ def versions(repo):
         if os.path.isfile(os.path.join(repo, p)):
             grep(p, r'(?i)(?:AppVersion|MY_VERSION|define\s+MyAppVersion|VERSION)\s*[= ]\s*"?(\d+\.\d+\.\d+)"?', 'installer version', required=False)
     grep('idl/libxrlidl.dlm', r'^VERSION\s+([\d.]+)', 'DLM VERSION', required=False)
+    # not read: windows/dotNetSrc (the separately maintained .NET wrapper; its AssemblyVersion 4.1.0 / VERSION_MINOR = 0 and the
+    # example programs' 1.0.0 are that project's own assembly versions — the wrapper is not among the binding interfaces the
+    # property lists and .bumpversion.cfg, the mechanism the property anchors, does not manage those files)
     grep('java/build.gradle.in', r"^\s*version\s*=?\s*'([\d.]+)'", 'gradle version', required=False)
     grep('doc/Doxyfile', r'^PROJECT_NUMBER\s*=\s*([\d.]+)', 'doxygen', required=False)
     # every file that bumpversion rewrites must be one we read (a new version-bearing file must not go unnoticed)
